@@ -626,6 +626,18 @@ func main() {
 	if gen.Thorough() {
 		nF, nT = 3000, 400
 	}
+	if len(os.Args) > 1 && os.Args[1] == "reconnect" {
+		for i := 0; i < 4; i++ {
+			reconnectScenario(rng)
+		}
+		return
+	}
+	if len(os.Args) > 1 && os.Args[1] == "multipart" {
+		for i := 0; i < 4; i++ {
+			multiPartScenario(rng)
+		}
+		return
+	}
 	if len(os.Args) > 1 && os.Args[1] == "lateloop" {
 		scenarioLateLoop()
 		return
@@ -660,6 +672,20 @@ func main() {
 	}
 	for i := 0; i < nD; i++ {
 		dataPlaneScenario(rng, 2+rng.Intn(3))
+	}
+	nR := 4
+	if gen.Thorough() {
+		nR = 30
+	}
+	for i := 0; i < nR; i++ {
+		reconnectScenario(rng)
+	}
+	nP := 4
+	if gen.Thorough() {
+		nP = 30
+	}
+	for i := 0; i < nP; i++ {
+		multiPartScenario(rng)
 	}
 	nM := 12
 	if gen.Thorough() {
